@@ -26,7 +26,7 @@ func countTransactions(w http.ResponseWriter, r *http.Request) {
 		case errors.Is(err, storagecommon.ErrInvalidQuery{}) || errors.Is(err, ledgerstore.ErrMissingFeature{}):
 			api.BadRequest(w, common.ErrValidation, err)
 		default:
-			common.HandleCommonErrors(w, r, err)
+			common.HandleCommonPaginationErrors(w, r, err)
 		}
 		return
 	}
